@@ -33,9 +33,12 @@ impl VM {
             self.registers[i] = *arg;
         }
 
-        self.prepare_globals_for_function(func_ref);
+        // the frame must carry the mapping id of its function (as call_function_kind does):
+        // calls made by the callee sync and re-prepare the caller's globals only for a caller
+        // frame with a non-zero id
+        let gmap_id = self.prepare_globals_for_function(func_ref);
 
-        let frame = CallFrame::new(
+        let mut frame = CallFrame::new(
             func_ref,
             0,
             bytecode_ptr,
@@ -44,6 +47,7 @@ impl VM {
             constants_len,
             num_registers,
         );
+        frame.global_mapping_id = gmap_id;
         self.push_frame(frame)?;
 
         self.run_fast()
@@ -82,9 +86,9 @@ impl VM {
             self.registers[i] = *arg;
         }
 
-        self.prepare_globals_for_function(func_ref);
+        let gmap_id = self.prepare_globals_for_function(func_ref);
 
-        let frame = CallFrame::with_upvalues(
+        let mut frame = CallFrame::with_upvalues(
             func_ref,
             0,
             0,
@@ -96,6 +100,7 @@ impl VM {
             upvalues_len,
             num_registers,
         );
+        frame.global_mapping_id = gmap_id;
         self.push_frame(frame)?;
 
         self.run_fast()
